@@ -105,6 +105,9 @@ def run(db, rep, tier):
                                    "(expected count 0 on the library; positive and negative controls on the fixture)", 0)
     r5(db, rep)
     r6(db, rep)
+    rep.rule("R7-owning-container", "a member container whose elements the destructor deletes is overwritten or cleared (outside constructors and "
+                                    "the destructor) only after its elements were freed on that path", 2)
+    r7(db, rep)
     controls(db, rep)
     rep.explanation = ("Decides the ownership/linking clauses of C12 that are visible in the shape of the special members and of "
                        "the child-link mutators: every pointer-owning class (found from its destructor) is checked member by "
@@ -728,3 +731,80 @@ def path_avoiding(g, a, b, avoid):
             continue
         stack.extend(g.succs(blk))
     return False
+
+
+def container_owners(db):
+    """(record, container field, freeing helper id or None): the destructor deletes the container's elements, either in a loop
+    of its own or by handing the member to a helper whose loop deletes elements reached from its parameter"""
+    out = []
+
+    def deleting_loop_over(f, pred):
+        for lp in facts.fn_nodes(f):
+            if lp["k"] not in ("ForStmt", "WhileStmt", "CXXForRangeStmt", "DoStmt"):
+                continue
+            if any(x["k"] == "CXXDeleteExpr" for x in facts.walk(lp)) and any(pred(x) for x in facts.walk(lp)):
+                return True
+        return False
+    for f in db.functions.values():
+        if f.get("kind") != "dtor" or not f.get("body") or not (f["file"].startswith("src/") or f["file"].startswith("include/tins") or db.config == "fixture"):
+            continue
+        r = db.records.get(f["rec"]) or {}
+        fields = set(x["name"] for x in r.get("fields", []))
+        for m in sorted(fields):
+            if deleting_loop_over(f, lambda x, m=m: this_field(x, m)):
+                out.append((f["rec"], m, None))
+        for c in facts.fn_nodes(f):
+            if c["k"] in ("CallExpr", "CXXMemberCallExpr") and c.get("callee"):
+                g = db.fn(c["callee"])
+                if g is None or not g.get("body"):
+                    continue
+                args = c["c"][1:]
+                for i, a in enumerate(args):
+                    m = this_field(a)
+                    if m and i < len(g["params"]):
+                        pv = g["params"][i]["var"]
+                        if deleting_loop_over(g, lambda x, pv=pv: x["k"] == "DeclRefExpr" and x.get("var") == pv):
+                            out.append((f["rec"], m, g["id"]))
+    return sorted(set(out))
+
+
+def r7(db, rep):
+    owners_ = container_owners(db)
+    n = 0
+    for rec, field, helper in owners_:
+        r = db.records.get(rec) or {}
+        for m in r.get("methods", []):
+            f = db.fn(m["id"])
+            if f is None or not f.get("body") or f.get("kind") in ("ctor", "dtor"):
+                continue
+            stores = []
+            for x in facts.fn_nodes(f):
+                if x["k"] == "CXXOperatorCallExpr" and x.get("cname") == "operator=" and this_field(x["c"][1], field):
+                    stores.append((x, "assigned"))
+                if x["k"] == "CXXMemberCallExpr" and x.get("cname") in ("clear", "swap") and x["c"] and x["c"][0].get("c") and \
+                        this_field(x["c"][0]["c"][0], field):
+                    stores.append((x, x["cname"] + "()"))
+            if not stores:
+                continue
+            g = cfg.FnCFG(f)
+            frees = []
+            for x in facts.fn_nodes(f):
+                if x["k"] in ("CallExpr", "CXXMemberCallExpr") and helper and x.get("callee") == helper and \
+                        any(this_field(a, field) for a in x["c"][1:]):
+                    frees.append(x)
+                if x["k"] in ("ForStmt", "WhileStmt", "CXXForRangeStmt") and any(y["k"] == "CXXDeleteExpr" for y in facts.walk(x)) and \
+                        any(this_field(y, field) for y in facts.walk(x)):
+                    frees += [y for y in facts.walk(x) if y["k"] == "CXXDeleteExpr"]
+            fpos = [q for q in (g.pos(x) for x in frees) if q]
+            for x, how in stores:
+                n += 1
+                key = "%s::%s:%s#%d" % (rec.replace("Tins::", ""), f["name"] if "name" in f else f["qual"].split("::")[-1], field, n)
+                if fpos and g.reached_from_entry_avoiding(g.pos(x), fpos) is None:
+                    rep.ok("R7-owning-container", key, facts.loc(f, x), "elements freed on every path before the container is %s" % how)
+                else:
+                    rep.violation("R7-owning-container", key, facts.loc(f, x),
+                                  "%s is %s while it may still hold elements that only ~%s deletes: every buffered element of the target is leaked "
+                                  "(also on self-assignment)" % (field, how, rec.split("::")[-1]))
+    rep.extra["owning_containers"] = ["%s::%s (freed by %s)" % (a, b, (c or "the destructor's own loop").split("(")[0]) for a, b, c in owners_]
+    if not owners_:
+        rep.analysis_broken("no owning container found (expected TCPStream's fragment maps)")
